@@ -592,7 +592,7 @@ def run_program(cx: Ctx, spec, cfg_seed, cfgs=None):
 
 # ------------------------------------------------------------------ plan / work / finish
 def plan(tier, seed):
-    shards, per = (32, 150) if tier == "quick" else (64, 3200)
+    shards, per = (32, 150) if tier == "quick" else (64, 1600)
     return [{"kind": "rand", "seed": seed * 100003 + i, "count": per} for i in range(shards)]
 
 
